@@ -72,3 +72,15 @@ package proxyserver
 //@   assigns lastNegotiated
 //@   ensures [C06:fresh-metadata] result != nil && ctxMeta(result) != nil && fresh(ctxMeta(result)) && ctxParent(result) == ctx
 //@   ensures [C06:copies-own-conn] isptr(hack.TLSClientHelloConn, c) ==> ctxMeta(result).ClientHelloRecord == unboxptr(hack.TLSClientHelloConn, c).ClientHelloRecord
+
+//@ func tlsStateHandler.ServeHTTP :: h, w, r
+//@   props C09
+//@   requires r != nil
+//@   assigns handlerSawTLS, handlerCalls, r.TLS
+//@   ensures [C09:tls-state-for-every-protocol] hasMeta(r.reqCtx) ==> handlerSawTLS
+//@   ensures [C09:forwards-once] handlerCalls == old(handlerCalls) + 1
+
+//@ func NewServer :: ctx, handler, tlsConfig -> server
+//@   props C11
+//@   assigns nothing
+//@   ensures [C11:server-parts] server != nil && fresh(server) && server.HTTPServer != nil && fresh(server.HTTPServer) && server.HTTP2Server != nil && fresh(server.HTTP2Server) && server.TLSConfig == tlsConfig && server.HTTPServer.Handler == handler && server.TLSHandshakeTimeout == 0 && server.HTTP2Server.IdleTimeout == 0
